@@ -52,6 +52,9 @@ def ops_from_json(ops):
     return out
 
 
+from harness import monitors as _monitors
+
+
 class Outcome:
     __slots__ = ('ok', 'exc_class', 'exc_msg', 'exc_where', 'result')
 
@@ -226,6 +229,7 @@ class Session:
             out = Outcome(True, result=res)
         except Exception as e:  # the boundary: every exception class is recorded
             out = Outcome(False, type(e).__name__, str(e), innermost_pycdlib_frame(e))
+        _monitors.progress()
         self.events.append(('ret', seq, op['op'], out.sig()))
         count('api:%s:%s' % (op['op'], 'ok' if out.ok else out.exc_class))
         self.ops.append((op, out))
@@ -251,6 +255,7 @@ class Session:
             oc = Outcome(True)
         except Exception as e:
             oc = Outcome(False, type(e).__name__, str(e), innermost_pycdlib_frame(e))
+        _monitors.progress()
         self.events.append(('ret', seq, 'write_fp', oc.sig()))
         count('api:write_fp:%s' % ('ok' if oc.ok else oc.exc_class))
         return (out if oc.ok else None), oc
@@ -273,6 +278,7 @@ class Session:
             oc = Outcome(True)
         except Exception as e:
             oc = Outcome(False, type(e).__name__, str(e), innermost_pycdlib_frame(e))
+        _monitors.progress()
         count('api:open_fp:%s' % ('ok' if oc.ok else oc.exc_class))
         return s, oc
 
